@@ -5,7 +5,7 @@ import os, re, shutil
 import runner as R
 from props import toks, flag
 
-DET_FIELDS = ('read', 'closed', 'closes', 'trace', 'unh', 'escaped', 'donecloses', 'leak', 'vals', 'err', 'ctx', 'gone')
+DET_FIELDS = ('read', 'closed', 'closes', 'trace', 'unh', 'escaped', 'donecloses', 'leak', 'vals', 'err', 'ctx', 'gone', 'backlog')
 
 
 def op_of(case):
